@@ -1,4 +1,5 @@
 import Percival.Proofs.AesCtr
+import Percival.Proofs.AesNi
 /-!
 # C02 — AES-CTR stream = SP 800-38A keystream (property theorems only; helpers are in `Proofs/AesCtr.lean`)
 
@@ -155,5 +156,93 @@ theorem ctr_buf_eq_spec {κ : Type} (enc : κ → List UInt8 → List UInt8)
 
 example : ctrBuf (κ := UInt8) (fun k b => b.map (· + k)) true ⟨0, [], List.replicate 16 0⟩ 1 2 [9, 9, 9] =
     some [9 ^^^ 1, 9 ^^^ 1, 9 ^^^ 1] := by decide
+
+/-! ## The block cipher
+
+For the software path (`AES_set_encrypt_key` / `AES_encrypt` of OpenSSL) the block cipher is *modelled* as
+FIPS-197 (trusted; observed by L1 on every run).  For the AES-NI path the C is modelled instruction by
+instruction (`Model/AesNi.lean`, Intel SDM semantics, immediates/indices from `Gen.AesConst`) and proved
+equal to FIPS-197 below. -/
+
+/-- a 128- or 256-bit AES key -/
+abbrev AesKey := { k : List UInt8 // k.length = 16 ∨ k.length = 32 }
+
+/-- FIPS-197 under a key -/
+def aesEnc (k : AesKey) (b : List UInt8) : List UInt8 := Aes.encryptBlock k.1 b
+
+/-- **AES-CTR with FIPS-197 AES** (instance of P1): for every 128/256-bit key, nonce, call sequence, routing. -/
+theorem aes_ctr_calls_eq_spec (raw : Raw) (hraw : raw.pblk.length = 16) (key : AesKey) (nonce : UInt64)
+    (calls : List Call) (hlim : (allInput calls).length < 2^64) :
+    ∃ s0 s outs, init raw key nonce = some s0 ∧ streamCalls aesEnc s0 calls = some (s, outs) ∧
+      outs.flatten = Ctr.stream (Aes.encryptBlock key.1) nonce (allInput calls) ∧
+      outs.map List.length = calls.map (·.data.length) :=
+  ctr_calls_eq_spec aesEnc (fun k b hb => Proofs.Aes.encryptBlock_length k.1 b k.2 hb) raw hraw key nonce calls hlim
+
+example : ∃ key : AesKey, key.1 = List.replicate 16 0 := ⟨⟨List.replicate 16 0, by decide⟩, rfl⟩
+
+/-- **AES-NI key expansion = FIPS-197 KeyExpansion** (`crypto_aes_key_expand_aesni`, both key sizes):
+    the `MKRKEY128`/`MKRKEY256` sequences with the immediates found in the source produce exactly the
+    `Nr+1` round keys of §5.2, and `nr` is `Nr`. -/
+theorem aesni_keyexp_eq_fips (key : List UInt8) (h : key.length = 16 ∨ key.length = 32) :
+    Model.AesNi.keyExpand key = some ⟨Aes.keyExpansion key, key.length / 4 + 6⟩ :=
+  Proofs.AesNi.keyExpand_eq_fips key h
+
+example : (Model.AesNi.keyExpand (List.replicate 32 7)).map (·.nr) = some 14 := by decide +kernel
+
+/-- **AES-NI block encryption = FIPS-197 Cipher** (`crypto_aes_key_expand_aesni` then
+    `crypto_aes_encrypt_block_aesni`): for every 128/256-bit key and every block. -/
+theorem aesni_block_eq_fips (key blk : List UInt8) (h : key.length = 16 ∨ key.length = 32)
+    (hb : blk.length = 16) :
+    (Model.AesNi.keyExpand key).bind (Model.AesNi.encryptBlock blk) = some (Aes.encryptBlock key blk) := by
+  rw [aesni_keyexp_eq_fips key h]
+  have hs := Proofs.Aes.keyExpansion_spec key h
+  show Model.AesNi.encryptBlock blk ⟨Aes.keyExpansion key, key.length / 4 + 6⟩ = _
+  rw [Proofs.AesNi.encryptBlock_eq_cipher _ _ blk (by omega) (by rw [hs.1]) hs.2 hb]
+  rfl
+
+example : (Model.AesNi.keyExpand Gen.AesConst.selfTestKey0).bind (Model.AesNi.encryptBlock Gen.AesConst.selfTestPtext0) =
+    some Gen.AesConst.selfTestCtext0 := by decide +kernel
+
+/-- the block function of the AES-NI build: expand (at `crypto_aes_key_expand` time), then encrypt -/
+def aesniEnc (k : AesKey) (b : List UInt8) : List UInt8 :=
+  match (Model.AesNi.keyExpand k.1).bind (Model.AesNi.encryptBlock b) with
+  | some c => c
+  | none => []
+
+/-- **End to end for the AES-NI build**: instruction-level key expansion and block encryption inside the
+    stream state machine (any calls, any routing) = SP 800-38A CTR with FIPS-197 AES. -/
+theorem aesni_ctr_calls_eq_spec (raw : Raw) (hraw : raw.pblk.length = 16) (key : AesKey) (nonce : UInt64)
+    (calls : List Call) (hlim : (allInput calls).length < 2^64) :
+    ∃ s0 s outs, init raw key nonce = some s0 ∧ streamCalls aesniEnc s0 calls = some (s, outs) ∧
+      outs.flatten = Ctr.stream (Aes.encryptBlock key.1) nonce (allInput calls) := by
+  have hagree : ∀ (k : AesKey) b, b.length = 16 → aesniEnc k b = Aes.encryptBlock k.1 b := by
+    intro k b hb
+    unfold aesniEnc
+    rw [aesni_block_eq_fips k.1 b k.2 hb]
+  obtain ⟨s0, s, outs, h0, h1, h2, _⟩ := ctr_calls_eq_spec aesniEnc
+    (fun k b hb => by rw [hagree k b hb]; exact Proofs.Aes.encryptBlock_length k.1 b k.2 hb)
+    raw hraw key nonce calls hlim
+  exact ⟨s0, s, outs, h0, h1, by rw [h2]; exact stream_congr _ _ nonce (hagree key) _⟩
+
+example : aesniEnc ⟨Gen.AesConst.selfTestKey1, by decide⟩ Gen.AesConst.selfTestPtext1 = Gen.AesConst.selfTestCtext1 := by
+  decide +kernel
+
+/-! ## `Gen` obligations: data taken from the current source -/
+
+/-- the two self-test vectors in `crypto_aes.c` are FIPS-197 AES (they are FIPS-197 C.1 and C.3) -/
+theorem gen_selftest_vectors_are_fips :
+    Aes.encryptBlock Gen.AesConst.selfTestKey0 Gen.AesConst.selfTestPtext0 = Gen.AesConst.selfTestCtext0 ∧
+    Aes.encryptBlock Gen.AesConst.selfTestKey1 Gen.AesConst.selfTestPtext1 = Gen.AesConst.selfTestCtext1 := by
+  constructor <;> decide +kernel
+
+/-- the immediates of the `MKRKEY128` / `MKRKEY256` invocations are FIPS-197's `Rcon[1..10]`, resp.
+    `Rcon[1..7]` with the 0xff/0xaa alternation; round-key indices are consecutive; `nr` = Nr -/
+theorem gen_aesni_immediates :
+    Gen.AesConst.mkrkey128Calls = (List.range 10).map (fun j => (j + 1, Aes.rconByte (j + 1))) ∧
+    Gen.AesConst.mkrkey256Calls = (List.range 13).map (fun j =>
+      (j + 2, if j % 2 = 0 then (0xff, Aes.rconByte (j / 2 + 1)) else (0xaa, 0x00))) ∧
+    Gen.AesConst.nr128 = 10 ∧ Gen.AesConst.nr256 = 14 ∧
+    Gen.AesConst.aesencIdx = [1, 2, 3, 4, 5, 6, 7, 8, 9] ∧ Gen.AesConst.aesencIdxLong = [10, 11, 12, 13] := by
+  decide
 
 end Percival.C02
